@@ -13,6 +13,10 @@ Property theorems (all inputs, any strict weak order on the keys, any number of 
   * `inputs_advanced_exactly`       — the merged prefix consists of the prefixes `[0, o_i)` of the inputs
   * `merge_phase_all_schedules`     — threads writing disjoint windows and reading only the inputs: every
                                       interleaving leaves the same memory (Bernstein conditions)
+  * `model_refines_spec`, `front_ends_refine_spec` — END TO END: the executed model `pmmBase` / `pmm` (what the
+                                      driver runs) returns the first `size` of the k-merge, target+size, begins at the
+                                      partition of rank `size`, adjacent windows — all inputs, threads ≥ 1, both splittings;
+                                      no assumption about multisequence_partition (C08 refinement_correct)
   * `front_end_switch`              — the sequential/parallel decision table of the four front ends
 The per-thread sequential merge is its specification `kMerge` (C05); offsets are assumed to satisfy the
 C08 specification `IsPartition`.  OPEN items are listed at the end.
@@ -20,6 +24,8 @@ C08 specification `IsPartition`.  OPEN items are listed at the end.
 import TlxVerif.Proofs.C07Split
 import TlxVerif.Proofs.C07Windows
 import TlxVerif.Proofs.C07Phases
+import TlxVerif.Proofs.C07Refine
+import TlxVerif.Proofs.C07Final
 import TlxVerif.Proofs.C08Checker
 namespace TlxVerif.C07
 open TlxVerif.C08 (StrictWeak IsPartition)
@@ -102,13 +108,32 @@ theorem front_end_switch (fs fp : Bool) (t k n mk mn : Nat) :
 theorem sliceChunk_eq (run : List Elem) (a b : Nat) (hab : a ≤ b) (hb : b ≤ run.length) :
     sliceChunk run ⟨a, b⟩ = .ok ((run.take b).drop a) := by
   unfold sliceChunk
-  have h : ¬ (((a : Int) < 0 || (b : Int) < (a : Int) || (b : Int) > (run.length : Int)) = true) := by
-    simp; omega
-  rw [if_neg h]
-  have e : ((b : Int) - (a : Int)).toNat = b - a := by omega
-  simp only [Int.toNat_natCast, e]
-  rw [List.drop_take]
-  rfl
+  have h : ¬ ((decide (b < a) || decide (b > run.length)) = true) := by simp; omega
+  rw [if_neg h]; rfl
+
+/-- **End to end, parallel base** (closes the former OPEN item `pmmBase_refines_spec`, and with the C08
+correctness theorem needs no assumption about `multisequence_partition`): the executable model of
+`parallel_multiway_merge_base` — the function the driver runs in the correspondence — succeeds and returns
+the first `size` elements of the stable k-merge, `target + size`, the begins advanced to the partition at rank
+`size`, and adjacent per-thread windows tiling `[0, size)`; for all well-tagged key-sorted inputs (empty
+sequences allowed), `size ≤ total`, threads ≥ 1, oversampling ≥ 1, exact and sampling splitting (for any
+in-range sample index function, hence for the IEEE-double one of the driver). -/
+theorem model_refines_spec (P : Params) (hlt : StrictWeak P.lt) (seqsAll : List (List Elem))
+    (hw : WellTagged seqsAll) (hk : KeySorted P.lt seqsAll) (size : Nat) (hsize : size ≤ seqsAll.flatten.length)
+    (hthr : 1 ≤ P.threads) (hosf : 1 ≤ P.osf)
+    (hidx : ∀ (len i ns : Nat), i < ns → 0 < len → P.sampleIdx len i ns size size < len) :
+    ∃ r, pmmBase P seqsAll size = .ok r ∧ r.out = (kMerge P.lt seqsAll).take size ∧ r.ret = (size : Int) ∧
+      (∃ o, IsPartition P.lt (keyRuns (nonEmpty seqsAll)) size o ∧ r.begins = scatterBegins seqsAll o) ∧
+      TileFrom 0 size r.windows :=
+  pmmBase_correct P hlt seqsAll hw hk size hsize hthr hosf hidx
+
+/-- **End to end, the four front ends** -/
+theorem front_ends_refine_spec (P : Params) (hlt : StrictWeak P.lt) (fs fp : Bool) (mk mn : Nat)
+    (seqsAll : List (List Elem)) (hw : WellTagged seqsAll) (hk : KeySorted P.lt seqsAll) (size : Nat)
+    (hsize : size ≤ seqsAll.flatten.length) (hthr : 1 ≤ P.threads) (hosf : 1 ≤ P.osf)
+    (hidx : ∀ (len i ns : Nat), i < ns → 0 < len → P.sampleIdx len i ns size size < len) :
+    ∃ r, pmm P fs fp mk mn seqsAll size = .ok r ∧ r.out = (kMerge P.lt seqsAll).take size ∧ r.ret = (size : Int) :=
+  pmm_correct P hlt fs fp mk mn seqsAll hw hk size hsize hthr hosf hidx
 
 /-! ### non-vacuity: the DESIGN §5 D1 input, three threads -/
 
@@ -143,6 +168,31 @@ example : ((chunkRows exRuns [0, 0] (samplingOffs exLt exRuns [1, 1])).map (fun 
     kMerge exLt exRuns :=
   sampling_splitting_correct exLt_strictWeak exRuns_wellTagged exRuns_keySorted [1, 1] (by decide)
 
+/-! ### non-vacuity of the end-to-end theorem: both splittings on the D1 input -/
+
+/-- parameters with an integer sample index function that stays inside the sequence -/
+def exP (exact : Bool) (threads : Nat) : Params :=
+  { lt := exLt, stable := true, exact := exact, threads := threads, osf := 2,
+    sampleIdx := fun len i ns _ _ => len * (i + 1) / (ns + 1) }
+
+theorem exP_idx (e : Bool) (t size : Nat) :
+    ∀ (len i ns : Nat), i < ns → 0 < len → (exP e t).sampleIdx len i ns size size < len := by
+  intro len i ns hi hlen
+  show len * (i + 1) / (ns + 1) < len
+  apply Nat.div_lt_of_lt_mul
+  rw [Nat.mul_comm (ns + 1)]
+  exact Nat.mul_lt_mul_of_pos_left (by omega) hlen
+
+example : ∃ r, pmmBase (exP true 3) exRuns 5 = .ok r ∧ r.out = (kMerge exLt exRuns).take 5 :=
+  let ⟨r, h1, h2, _⟩ := model_refines_spec (exP true 3) exLt_strictWeak exRuns exRuns_wellTagged exRuns_keySorted 5
+    (by decide) (by decide) (by decide) (exP_idx true 3 5)
+  ⟨r, h1, h2⟩
+
+example : ∃ r, pmmBase (exP false 4) exRuns 6 = .ok r ∧ r.out = (kMerge exLt exRuns).take 6 :=
+  let ⟨r, h1, h2, _⟩ := model_refines_spec (exP false 4) exLt_strictWeak exRuns exRuns_wellTagged exRuns_keySorted 6
+    (by decide) (by decide) (by decide) (exP_idx false 4 6)
+  ⟨r, h1, h2⟩
+
 /-! ### DESIGN §5 D4 (fixed in the repo; kept as a documented witness)
 
 Sampling splitting tiles the *complete* runs.  With `size < total` the last thread's target position lies
@@ -152,11 +202,8 @@ length is `-1`. -/
 example : (samplingOffs exLt exRuns [1]).map List.sum = [3, 6] := by decide
 example : min ((6 : Int) - 3) ((2 : Int) - 3) = -1 := by decide
 
--- OPEN: pmmBase_refines_spec — `pmmBase P seqs size = .ok r` with `r.out = (kMerge lt seqs).take size`,
---   `r.begins` the partition at rank `size`, for all inputs: the glue code of the model (the `for` loops
---   building chunk tables from `partitionM`/`upperBound` results and `assemble`) is not proved equal to
---   `chunkRows`; it is exercised by the correspondence only.  Also needs the C08 OPEN item
---   (partitionM returns an `IsPartition`).
+-- (the former OPEN item pmmBase_refines_spec is closed by `model_refines_spec`; the C08 correctness theorem
+--  `C08.msp_correct_lists` discharges the hypothesis about multisequence_partition.)
 -- OPEN: data_race_freedom — `merge_phase_all_schedules` proves schedule independence for threads whose steps
 --   have the window footprints; that the real per-thread `multiway_merge_base` touches nothing outside
 --   (chunks read-only, own window written) is asserted at window granularity, checked by the harness
